@@ -32,11 +32,13 @@ def _state_equal(a, b):
     return a[0] == b[0] and bool(np.array_equal(a[1], b[1])) and tuple(a[2:]) == tuple(b[2:])
 
 
-def _call(f, kw, seed, has_seed=True):
+def _call(f, kw, seed, has_seed=True, retry=10):
+    """retry: a repetition that times out is re-run once with 10x the budget -- 'ok vs timeout' between repetitions is a
+    verdict (same-seed-identical), so a single wall-clock hit on a loaded machine must not produce it"""
     k = ei.deep_copy(kw)
     if seed is not None:
         k['seed'] = seed
-    return call(lambda: f(**k), t=T_CALL)
+    return call(lambda: f(**k), t=T_CALL, retry=retry)
 
 
 def _res_equal(r1, r2):
@@ -72,7 +74,7 @@ def run_task(task):
     for _ in range(task['prior'][3]):
         pyrandom.random()
     np0, py0 = np.random.get_state(), pyrandom.getstate()
-    r1 = _call(f, kw, s)
+    r1 = _call(f, kw, s, retry=3)      # a first-call timeout is only counted (mostly-timeouts bound), so a short retry suffices
     np1, py1 = np.random.get_state(), pyrandom.getstate()
     out['calls'] += 1
     out['status'] = r1[0] if r1[0] != 'exc' else 'exc:' + exc_kind(r1[1])
